@@ -222,82 +222,76 @@ def check_sentinel(ctx, lab, fname, fs, spec, v, smap, m, dnode):
 
 
 # ------------------------------------------------------------------------------------------ R5 strides
+def _record_exits(ctx, m, cls, msgcls):
+    ci = m.get_class(cls)
+    ctx.require(ci is not None and "decode" in ci.methods, f"{m.relpath}: {cls}.decode vanished")
+    fn = ci.methods["decode"]
+    ctx.fn(m, f"{cls}.decode")
+    ps = [a.arg for a in fn.args.args]
+    ctx.require(len(ps) == 3, f"{m.relpath}: {cls}.decode(self, buffer, header) expected")
+    eng = OF.Offsets(ctx.repo, m, fn, ps[1], ps[2], ci)
+    exits = [OF.simplify_exit(e) for e in eng.analyse()]
+    msgs = _message_exits(exits, msgcls)
+    ctx.require(msgs, f"{m.relpath}: {cls}.decode returns no {msgcls}")
+    out = []
+    for ex, f in msgs:
+        accs = [v.name for v in f.values() if isinstance(v, OF.Acc)]
+        loops = [e for e in ex.emits if isinstance(e, OF.Loop) and any(x[0] in accs for x in e.emits)]
+        direct = [e for e in ex.emits if isinstance(e, tuple) and e[0] in accs]
+        out.append((ex, loops, direct))
+    return fn, out
+
+
+def _fmt_of(ctx, m, name):
+    st = ctx.repo.try_fold(m, m.get_const_expr(name))
+    ctx.require(isinstance(st, StructVal), f"{m.relpath}: {name} is not a foldable struct")
+    return st
+
+
 def r5(ctx):
+    """Record positions, decided in the buffer-offset domain (sa/offsets.py): which bytes each iteration reads, how many iterations,
+    and which lengths are rejected - however the loop is written (re-slicing, running offset, index * stride, comprehension)."""
     R = "C05.R5"
-    for mod, cls, size_expr in (("xC021_zone_status", "ZoneStatusDecoder", "_STRUCT.size"), ("xC023_ac_status", "AcStatusDecoder", "_STRUCT.size"), ("xC033_ac_timer_status", "AcTimerStatusDecoder", "_TIMER_STATUS_REPEAT_SIZE")):
+    # AT5: RC records, record k at k * RL (the announced stride), RL below the known layout is rejected
+    for mod, cls, msgcls, layout in (
+        ("xC021_zone_status", "ZoneStatusDecoder", "ZoneStatusMessage", [("_STRUCT", 0)]),
+        ("xC023_ac_status", "AcStatusDecoder", "AcStatusMessage", [("_STRUCT", 0)]),
+        ("xC033_ac_timer_status", "AcTimerStatusDecoder", "AcTimerStatusMessage", [("_TIMER_STATE_STRUCT", 1), ("_TIMER_STATE_STRUCT", 3)]),
+    ):
         m = ctx.repo.module(f"pyairtouch.at5.comms.{mod}")
-        f = Fn(ctx.repo, m, f"{cls}.decode")
-        ctx.fn(m, f"{cls}.decode")
         lab = f"at5.{mod}.{cls}"
-        hdr = f.params[2]
-        loops = [x for x in ast.walk(f.node) if isinstance(x, ast.For)]
-
-        def it_text(x, f=f):
-            n_ = f.node_of(x)
-            return norm_text(f.expand(x.iter, n_)) if n_ is not None else norm_text(x.iter)
-
-        lp = next((x for x in loops if it_text(x) == f"range({hdr}.repeat_count)"), None)
-        if lp is None:
-            ctx.violation(R, f"{lab}:loop", m, f.node, f"one record per announced repeat: for _ in range({hdr}.repeat_count)", "no such loop")
-            continue
-        ctx.holds(R, f"{lab}:loop", m, lp, f"range({hdr}.repeat_count)")
-        buf = f.params[1]
-        adv = [s for s in lp.body if isinstance(s, ast.Assign) and dotted(s.targets[0]) == buf and isinstance(s.value, ast.Subscript) and dotted(s.value.value) == buf and isinstance(s.value.slice, ast.Slice)]
-        unp = [x for x in ast.walk(lp) if isinstance(x, ast.Call) and isinstance(x.func, ast.Attribute) and x.func.attr == "unpack_from"] + [x for x in ast.walk(lp) if isinstance(x, ast.Call) and (dotted(x.func) or "").startswith("self._decode_timer_state")]
-        ok = False
-        found = "records are not located by the announced stride"
-        ivar = lp.target.id if isinstance(lp.target, ast.Name) else None
-        if adv:
-            lo = adv[0].value.slice.lower
-            an = f.node_of(adv[0])
-            lo_txt = norm_text(f.expand(lo, an, keep={buf})) if lo is not None and an is not None else (norm_text(lo) if lo is not None else "")
-            a_ok = lo is not None and lo_txt == f"{hdr}.repeat_length" and adv[0].value.slice.upper is None
-            # reads in the loop must address the current head of the buffer (no index-based offset)
-            offs = [x for x in unp if (len(x.args) > 1 or any(k.arg == "offset" for k in x.keywords)) and isinstance(x.func, ast.Attribute) and x.func.attr == "unpack_from"]
-            last = lp.body[-1] is adv[0] or all(not any(isinstance(y, ast.Name) and y.id == buf for y in ast.walk(s)) for s in lp.body[lp.body.index(adv[0]) + 1:])
-            ok = a_ok and not offs and last
-            found = f"advance by {norm_text(lo) if lo is not None else '?'}" + ("; reads use an explicit offset" if offs else "") + ("" if last else "; buffer used after the advance")
-        else:
-            offs = [x for x in unp if isinstance(x.func, ast.Attribute) and x.func.attr == "unpack_from"]
-            good = []
-            for x in offs:
-                o = x.args[1] if len(x.args) > 1 else next((k.value for k in x.keywords if k.arg == "offset"), None)
-                t = norm_text(o) if o is not None else ""
-                good.append(t in (f"{ivar} * {hdr}.repeat_length", f"{hdr}.repeat_length * {ivar}"))
-                found = f"record {ivar} read at offset `{t}`"
-            ok = bool(offs) and all(good)
-        ctx.check(ok, R, f"{lab}:stride", m, lp, f"record i is read at i * {hdr}.repeat_length (the announced stride), e.g. by advancing the buffer by repeat_length per iteration", found)
-        # remaining bytes: what is left after count * stride
-        # lower bound on the stride
-        ok = False
-        for t in f.tests(lambda e: isinstance(e, ast.Compare) and len(e.ops) == 1):
-            l, r = norm_text(t.ast.left), norm_text(t.ast.comparators[0])
-            if l == f"{hdr}.repeat_length" and r == size_expr and isinstance(t.ast.ops[0], ast.Lt):
-                reach = f.cfg.reachable(f.branch(t, "true").id, labels=NONEXC)
-                raises = [f.cfg.nodes[i] for i in reach if f.cfg.nodes[i].kind == "stmt" and isinstance(f.cfg.nodes[i].ast, ast.Raise)]
-                ok = f.cfg.exit.id not in reach and any("DecodeError" in unparse(x.ast) for x in raises)
-                lnode = next((n for n in f.cfg.nodes if n.kind == "for" and n.ast is lp), None)
-                ok = ok and lnode is not None and f.cfg.dominates(f.branch(t, "false").id, lnode.id)
-        ctx.check(ok, R, f"{lab}:stride-lower-bound", m, f.node, f"{hdr}.repeat_length < {size_expr} raises DecodeError before any record is read", "missing or not dominating the loop")
-        # request detection
-    # AT4 status decoders: fixed record size, length must be a multiple
-    for mod, cls in (("x2B_group_status", "GroupStatusDecoder"), ("x2D_ac_status", "AcStatusDecoder")):
+        fn, paths = _record_exits(ctx, m, cls, msgcls)
+        size = ctx.repo.try_fold(m, m.get_const_expr("_TIMER_STATUS_REPEAT_SIZE")) if mod == "xC033_ac_timer_status" else _fmt_of(ctx, m, "_STRUCT").size
+        ctx.require(isinstance(size, int), f"{m.relpath}: record size not foldable")
+        want_reads = sorted((_fmt_of(ctx, m, nm).fmt, OF.lfmt(OF.L((1, "RL*k"), off))) for nm, off in layout)
+        lb = OF.cfmt(OF.mk_cmp(">=", OF.ls("RL"), OF.lc(size)))
+        for ex, loops, direct in paths:
+            cs = _conds(ex)
+            ok = len(loops) == 1 and not direct and loops[0].count is not None and OF.lfmt(loops[0].count) == "RC"
+            ctx.check(ok, R, f"{lab}:loop", m, fn, "one record per announced repeat (repeat_count iterations, nothing stored outside the loop)", f"{len(loops)} loops, count {OF.lfmt(loops[0].count) if loops and loops[0].count is not None else None}; when {cs}"[:300])
+            if not ok:
+                continue
+            reads = sorted((e[1], repr(e[2])) for e in loops[0].emits if e[0] == "read")
+            ctx.check(reads == want_reads, R, f"{lab}:stride", m, fn, f"record k is read at k * repeat_length (the announced stride): {want_reads}", str(reads))
+            ctx.check(lb in cs, R, f"{lab}:stride-lower-bound", m, fn, f"repeat_length < {size} raises DecodeError before any record is read (every decoding path has `{lb}`)", f"path conditions {cs}"[:300])
+    # AT4: fixed record size S, message_length // S records at S*k, length must be a multiple of S
+    for mod, cls, msgcls, layout in (
+        ("x2B_group_status", "GroupStatusDecoder", "GroupStatusMessage", [("_STRUCT", 0)]),
+        ("x2D_ac_status", "AcStatusDecoder", "AcStatusMessage", [("_STRUCT", 0)]),
+        ("x37_ac_timer_status", "AcTimerStatusDecoder", "AcTimerStatusMessage", [("_TIMER_STATE_STRUCT", 0), ("_TIMER_STATE_STRUCT", 2)]),
+    ):
         m = ctx.repo.module(f"pyairtouch.at4.comms.{mod}")
-        f = Fn(ctx.repo, m, f"{cls}.decode")
-        ctx.fn(m, f"{cls}.decode")
-        hdr = f.params[2]
-        lp = next((x for x in ast.walk(f.node) if isinstance(x, ast.For)), None)
-        ln = f.node_of(lp) if lp is not None else None
-        it_txt = norm_text(f.expand(lp.iter, ln)) if ln is not None else (norm_text(lp.iter) if lp else "no loop")
-        ok = lp is not None and it_txt == f"range({hdr}.message_length // _STRUCT.size)"
-        buf = f.params[1]
-        adv = []
-        for s_ in (lp.body if lp else []):
-            if isinstance(s_, ast.Assign) and dotted(s_.targets[0]) == buf:
-                sn = f.node_of(s_)
-                if sn is not None and norm_text(f.expand(s_.value, sn, keep={buf})) == f"{buf}[_STRUCT.size:]":
-                    adv.append(s_)
-        ctx.check(ok and len(adv) == 1, R, f"at4.{mod}.{cls}:records", m, f.node, "message_length // record size records, advancing by the record size", it_txt)
+        fn, paths = _record_exits(ctx, m, cls, msgcls)
+        size = ctx.repo.try_fold(m, m.get_const_expr("_TIMER_STATUS_REPEAT_SIZE")) if mod == "x37_ac_timer_status" else _fmt_of(ctx, m, "_STRUCT").size
+        ctx.require(isinstance(size, int), f"{m.relpath}: record size not foldable")
+        want_reads = sorted((_fmt_of(ctx, m, nm).fmt, OF.lfmt(OF.L((size, "k"), off))) for nm, off in layout)
+        mult = f"mod(ML,{size}) == 0"
+        for ex, loops, direct in paths:
+            cs = _conds(ex)
+            cnt = OF.lfmt(loops[0].count) if len(loops) == 1 and loops[0].count is not None else None
+            reads = sorted((e[1], repr(e[2])) for e in loops[0].emits if e[0] == "read") if len(loops) == 1 else None
+            ok = len(loops) == 1 and not direct and mult in cs and cnt in (f"1/{size}*ML", f"fd(ML,{size})") and reads == want_reads
+            ctx.check(ok, R, f"at4.{mod}.{cls}:records", m, fn, f"message_length / {size} records, record k read at {size}*k ({want_reads}); a length that is not a multiple of {size} is rejected", f"count {cnt}, reads {reads}, when {cs}"[:300])
 
 
 # ------------------------------------------------------------------------------------------ R6 strings
